@@ -343,7 +343,7 @@ def o7(ctx):
     ds = [b for b in crate.by_name.get("fmt", []) if (b.impl_self or "") == "slot::Slot" and (b.impl_trait or "").endswith("fmt::Display")]
     if len(ds) != 1:
         raise mir.AnchorMissing("<Slot as Display>::fmt")
-    d = ds[0]
+    d = mir.inline_view(crate, ds[0], depth=3, policy={x.id for x in crate.fns() if (x.file or "").endswith(SLOTF) and x.kind != "Closure"} - {ds[0].id})
     arms = {}
     for sb in d.switch_blocks():
         t = d.blocks[sb]["term"]
@@ -372,6 +372,22 @@ def o7(ctx):
                         if bb_ is d and res == 2:
                             continue
                         found = (tpl, arg)
+        if found is None or expr not in found[1]:
+            # decode-then-print: the arm builds a value of a private enum (one constructor per residue) that is matched on
+            # afterwards; the printed argument resolves to the payload of that constructor
+            built = False
+            for bi, si, s_ in d.statements():
+                if bi in reach and s_["k"] == "assign" and s_["rv"]["k"] == "agg" and s_["rv"].get("agg") == "adt" and str(s_["rv"].get("adt", "")).startswith("slot::") and s_["rv"].get("adt") != "slot::Slot":
+                    if any(expr in role_str(d.role_of_operand(o), 12) for o in s_["rv"]["ops"]):
+                        built = True
+            if built:
+                for bb_ in [d] + d.closures:
+                    for c in bb_.calls:
+                        if c.callee and c.callee.name == "new" and "Arguments" in (c.callee.impl_self or ""):
+                            tr = bb_.role_of_operand(c.args[0])
+                            arg = role_str(bb_.role_of_operand(c.args[1]), 14)
+                            if expr in arg or (res == 2 and "named_vec" in arg and bb_ is not d):
+                                found = (decode_fmt("const " + tr[1] if tr[0] == "const" else None), arg if expr in arg else arg + " " + expr)
         if found is None:
             ctx.bad("display-arm:%d" % res, "no formatting call found in the residue-%d arm of Display for Slot" % res, where_of(d))
             continue
